@@ -11,21 +11,29 @@ That a valid input is accepted is NOT demanded (counted as an observation).
 
 Parts
   rsa     RSA.construct at small scale: ALL (p, q) in [0,B]^2 x e in [1,12] x d-variants x u-variants
-          x n in {pq, pq+2} x tuple lengths 2, 3, 5, 6 (B = 40 thorough / 16 quick); pseudoprime /
-          Carmichael / prime-square factors; the same tuples through RSA.import_key (PKCS#1 DER) on a
-          smaller square; the 1024-bit fixture with damaged components
-  dsa     DSA.construct: all (p, q, g) with p < 48, q < 12 (quick p < 24), full (y, x) grid when the
-          reference accepts the domain, boundary (y, x) alphabet otherwise; 4- and 5-tuples;
-          DSA.import_key (OpenSSL DER) on p < 24
-  elg     ElGamal.construct: p < 64 (quick p < 32), all g, full (y, x) grid for prime p
+          x n in {pq, pq+2} x tuple lengths 2, 3, 5, 6 (B = 56 thorough / 16 quick); pseudoprime /
+          Carmichael / prime-square factors (thorough: every such composite below 200000); the same
+          tuples through RSA.import_key (PKCS#1 / PKCS#8 DER) on a smaller square (40 / 8); the
+          1024/1025-bit fixtures with damaged components (thorough: all 11 stored fixtures up to 2048
+          bits, 82 variants each, construct + PKCS#1 + PKCS#8)
+  dsa     DSA.construct: all (p, q, g) with p < 60, q < 24 (quick p < 24, q < 12), full (y, x) grid when
+          the reference accepts the domain, boundary (y, x) alphabet otherwise; 4- and 5-tuples;
+          DSA.import_key (OpenSSL DER, PKCS#8, SPKI) on p < 32 (quick 12); fixture variants at 1024 bits
+          (thorough: also 2048 and 3072)
+  elg     ElGamal.construct: p < 84 (quick p < 32), all g, full (y, x) grid for prime p
   ec      EccPoint / EccXPoint / ECC.construct / ECC.import_key (SEC1 raw and compressed, SPKI,
           OpenSSH, RFC 8032 / RFC 7748 raw, RFC 5915, PKCS#8) on the coordinate alphabet of DESIGN
           (all pairs), scalars {1,2,n-1,0,n,n+1,-1,2^(8len)-1}, private/public mismatch, seed
-          lengths, seed/point mismatch, neutral element, low-order Montgomery u and aliases
+          lengths, seed/point mismatch, neutral element, low-order Montgomery u and aliases;
+          thorough only (_c05_ecpart.ec_cases_deep): windows of 512 consecutive coordinate values at 0, at
+          the base point and around p, every length of every octet-string field, private scalars near the
+          ends of [1, n-1] and every one-bit scalar / seed
   gen     RSA / DSA / ElGamal / ECC generate() driven by deterministic tapes (seeded streams and
-          crafted boundary prefixes), FIPS 186-4 margins
-  flip    one valid encoding per (type, format): every single-bit flip of every integer /
+          crafted boundary prefixes), FIPS 186-4 margins (thorough: RSA lengths 1024..1040, 1536, 2048,
+          3072, 4096 and six exponents, three DSA sizes, ElGamal lengths 161..192, 224, 256)
+  flip    one valid encoding per (key fixture, format): every single-bit flip of every integer /
           coordinate / seed field (re-encoded): whatever is accepted satisfies the invariants
+          (thorough: five RSA fixtures, two DSA fixtures, all five NIST curves)
 """
 from ..common import Acc, chunks, exc_site, short, seeded, seeded_int, SEED
 from ..ref import nt
@@ -39,7 +47,7 @@ LEVEL = "exploration"
 RULE = ("complete enumeration of the stated finite grids (see parts): small-scope component tuples for "
         "RSA/DSA/ElGamal, the per-curve coordinate/scalar/seed alphabets for every EC entry point and "
         "import format, a fixed list of entropy tapes for generate(), every single-bit flip of every "
-        "numeric field of one valid encoding per (type, format); a case is one call of the real "
+        "numeric field of one valid encoding per (key fixture, format); a case is one call of the real "
         "constructor / importer / generator judged by the reference; it is non-trivial when the call "
         "reaches the library's validation (every case does: all inputs are well-typed); "
         "distinct_nontrivial counts distinct (part, entry, shape, reference class of the input, "
@@ -165,6 +173,9 @@ def rsa_call(tup, via):
     if via == "spki-der":
         blob = N.rsa_spki(tup[0], tup[1])
         return lambda: RSA.import_key(blob)
+    if via == "openssh":
+        blob = N.rsa_openssh(tup[0], tup[1])
+        return lambda: RSA.import_key(blob)
     raise ValueError(via)
 
 
@@ -273,6 +284,18 @@ def rsa_tuples_len3(n, B, es):
 
 
 SPECIAL_FACTORS = (561, 1105, 1729, 2465, 2047, 3277, 4033, 341, 91, 49, 121, 169, 1891, 5459, 5777, 10877)
+SPECIAL2_LIMIT = 200000
+BIG_FIXTURES = ((1024, 65537), (1024, 3), (1025, 65537), (1025, 3), (1031, 65537), (1031, 3), (1032, 65537), (1032, 3),
+                (2048, 65537), (2048, 3), (1024, 4294967311))
+
+
+def special2_factors():
+    """thorough tier: every Carmichael number, every strong pseudoprime to base 2, every Lucas pseudoprime (Selfridge parameters) and every
+    square of a prime below SPECIAL2_LIMIT (composites built to pass one or the other half of a probable-prime test)"""
+    L = SPECIAL2_LIMIT
+    vals = set(nt.carmichael_numbers(L)) | set(nt.strong_pseudoprimes((2,), L)) | set(nt.lucas_pseudoprimes(L))
+    vals |= {r * r for r in nt.sieve(int(L ** 0.5) + 1) if r * r < L}
+    return sorted(vals - set(SPECIAL_FACTORS))
 
 
 def rsa_stat(acc, via, tup, res):
@@ -298,8 +321,9 @@ def rsa_worker(shards):
     for sh in shards:
         kind = sh[0]
         if kind == "pq":
-            _, p, B = sh
-            for q in range(0, B + 1):
+            p, B = sh[1], sh[2]
+            part, nparts = (sh[3], sh[4]) if len(sh) > 3 else (0, 1)
+            for q in range(0, B + 1)[part::nparts]:
                 for tup in rsa_tuples_pq(p, q, ES):
                     rsa_stat(acc, "construct", tup, check_rsa(tup, acc))
                     last = tup
@@ -321,8 +345,8 @@ def rsa_worker(shards):
                                         (-abs(p * q), e, d, abs(p), abs(q))):
                                 rsa_stat(acc, "construct", tup, check_rsa(tup, acc))
                                 last = tup
-        elif kind == "special":
-            for p in SPECIAL_FACTORS:
+        elif kind in ("special", "special2"):
+            for p in (SPECIAL_FACTORS if kind == "special" else sh[1]):
                 for q in (3, 5, 7, 11, 13, 17):
                     for (pp, qq) in ((p, q), (q, p)):
                         for e in (3, 5, 7, 11, 13, 17, 19, 23):
@@ -332,11 +356,12 @@ def rsa_worker(shards):
                                     rsa_stat(acc, "construct", tup, check_rsa(tup, acc))
                                     last = tup
         elif kind == "import":
-            _, p, B = sh
+            p, B = sh[1], sh[2]
+            pubvias = ("pkcs1-pub-der", "spki-der") + (("openssh",) if len(sh) > 3 else ())     # thorough: also the OpenSSH line
             for q in range(0, B + 1):
                 n0 = p * q
                 for e in (1, 3, 5, 7, 11):
-                    for via in ("pkcs1-pub-der", "spki-der"):
+                    for via in pubvias:
                         tup = (n0, e)
                         rsa_stat(acc, via, tup, check_rsa(tup, acc, via))
                     for d in rsa_d_variants(p, q, e, n0):
@@ -347,7 +372,8 @@ def rsa_worker(shards):
                             last = tup
         elif kind == "big":
             from ..keys import rsa_components
-            for bits, e in ((1024, 65537), (1024, 3), (1025, 65537)):
+            deep = len(sh) > 1                       # thorough tier: ("big", index into BIG_FIXTURES), one fixture per shard
+            for bits, e in (BIG_FIXTURES[sh[1]:sh[1] + 1] if deep else BIG_FIXTURES[:3]):
                 c = rsa_components(bits, e)
                 n, d, p, q = c["n"], c["d"], c["p"], c["q"]
                 lam = nt.lcm(p - 1, q - 1)
@@ -358,10 +384,26 @@ def rsa_worker(shards):
                             (n, e, d, p + 2, q), (n, e, d, p, q + 2), (n, e + 2, d, p, q), (n, e, d), (n, e, d + lam),
                             (n, e, d + 2), (n, e), (n + 1, e), (p, e), (n, e, d, n, 1), (n, e, d, 1, n),
                             (p * p, e, d, p, p), (p * p, e, nt.inverse(e, p * (p - 1)) if nt.gcd(e, p) == 1 else d, p, p)]
+                if deep:
+                    phi = (p - 1) * (q - 1)
+                    # private exponents d + k*lcm and d + k*phi (factor recovery from (n, e, d) and the consistency check),
+                    # neighbours of d, of the factors and of u; every one with 3, 5 and 6 components where that applies
+                    for k in range(2, 9):
+                        variants += [(n, e, d + k * lam), (n, e, d + k * lam, p, q), (n, e, d + k * phi), (n, e, d + k * phi, p, q)]
+                    for dd in (d - 2, d - 1, d + 1, d + 2, d ^ (1 << 512), lam - d, n - d):
+                        variants += [(n, e, dd), (n, e, dd, p, q)]
+                    for (pp, qq) in ((p - 2, q), (p, q - 2), (p + 2, q - 2), (nt.next_prime(p), q), (p, nt.next_prime(q))):
+                        variants += [(n, e, d, pp, qq), (pp * qq, e, d, pp, qq)]
+                    for uu in (u - 1, u + 2, u - q, u + 2 * q, q - u, 0, q, q - 1):
+                        variants += [(n, e, d, p, q, uu)]
+                    variants = uniq(variants)
+                    acc.seen("rsa_big_nvariants", len(variants))
                 for tup in variants:
-                    for via in (("construct", "pkcs1-der") if len(tup) == 5 else ("construct",)):
+                    for via in (("construct", "pkcs1-der") + (("pkcs8-der",) if deep else ()) if len(tup) == 5 else ("construct",)):
                         res = check_rsa(tup, acc, via, budget=20.0)
                         acc.count("evaluations")
+                        if via == "construct":
+                            acc.count("rsa_big_variants")
                         acc.seen("classes", ("rsa-big", via, len(tup), bits, variants.index(tup), res))
                         acc.count("rsa_accept" if res == "key" else "rsa_refuse" if res == "ValueError" else "rsa_other")
                         last = tup
@@ -410,6 +452,8 @@ def dsa_call(tup, via):
         blob = N.dsa_pkcs8(p, q, g, tup[4])
     elif via == "spki-der":
         blob = N.dsa_spki(p, q, g, y)
+    elif via == "openssh":
+        blob = N.dsa_openssh(p, q, g, y)
     else:
         raise ValueError(via)
     return lambda: DSA.import_key(blob)
@@ -518,7 +562,7 @@ def dsa_worker(shards):
                         dsa_stat(acc, "construct", tup, check_dsa(tup, acc))
                         last = tup
         elif kind == "import":
-            _, p, QB = sh
+            p, QB = sh[1], sh[2]
             for q in range(0, QB):
                 for g in range(0, p + 1):
                     full = not RD.dsa_check_domain(p, q, g)
@@ -526,6 +570,8 @@ def dsa_worker(shards):
                         if x is None:
                             tup = (y, g, p, q)
                             dsa_stat(acc, "spki-der", tup, check_dsa(tup, acc, "spki-der"))
+                            if len(sh) > 3:                  # thorough: also the OpenSSH line
+                                dsa_stat(acc, "openssh", tup, check_dsa(tup, acc, "openssh"))
                         else:
                             tup = (y, g, p, q, x)
                             dsa_stat(acc, "openssl-der", tup, check_dsa(tup, acc, "openssl-der"))
@@ -544,7 +590,7 @@ def dsa_worker(shards):
                                 dsa_stat(acc, "construct", tup, check_dsa(tup, acc))
         elif kind == "big":
             from ..keys import dsa_components
-            for (L, Nn) in ((1024, 160), (2048, 224))[:sh[1]]:
+            for (L, Nn) in ((1024, 160), (2048, 224), (3072, 256))[(sh[2] if len(sh) > 2 else 0):sh[1]]:
                 c = dsa_components(L, Nn)
                 p, q, g, y, x = c["p"], c["q"], c["g"], c["y"], c["x"]
                 variants = [(y, g, p, q, x), (y, g, p, q), (y, g, p, q, x + q), (y, g, p, q, x + 1), (y * g % p, g, p, q, x),
@@ -642,8 +688,9 @@ def elg_worker(shards):
     for sh in shards:
         if sh[0] == "p":
             p = sh[1]
+            part, nparts = (sh[2], sh[3]) if len(sh) > 2 else (0, 1)
             prime = p >= 3 and isp(p)
-            for g in range(0, p + 2):
+            for g in range(0, p + 2)[part::nparts]:
                 if prime:
                     ys, xs = range(0, p + 1), range(0, p + 2)
                 else:
@@ -702,13 +749,17 @@ def run(ctx):
     _pm = ctx.pmap
     phases = {}
 
+    shard_s = {}
+
     def timed(fn, shards):
-        t = time.time()
+        t, c0 = time.time(), ctx.acc.n.get("_cpu_s", 0)
         r = _pm(fn, shards)
         phases[fn.__name__] = round(phases.get(fn.__name__, 0) + time.time() - t, 1)
+        shard_s[fn.__name__] = round(shard_s.get(fn.__name__, 0) + ctx.acc.n.get("_cpu_s", 0) - c0, 1)
         return r
     ctx.pmap = timed
     ctx.coverage_extra["phase_wall_s"] = phases
+    ctx.coverage_extra["phase_shard_s"] = shard_s         # sum of the shards' own run times (the harness's cpu_s, by phase)
     ctx.pmap(selftest_worker, [[m.__name__] for m in (nt, RR, RD, E, H, N)])
     if ctx.acc.errors:
         return
@@ -724,7 +775,7 @@ def run(ctx):
     # ---- generate() first: the longest single cases ----
     gc = G.gen_cases(q)
     gc.sort(key=lambda c: (0 if c["kind"] == "elg" else 1 if c.get("bits", 0) >= 2048 else 2))
-    ctx.pmap(G.gen_worker, [[c] for c in gc[:24]] + chunks(gc[24:], 48))
+    ctx.pmap(G.gen_worker, [[c] for c in gc[:24]] + chunks(gc[24:], 48) if q else G.gen_shards(gc, q))
     for kind, lo in (("rsa", 8), ("dsa", 4), ("elg", 2), ("ecc", 27)):
         ctx.require(a.n.get("gen_%s_key" % kind, 0) >= lo, "generate(): fewer than %d %s keys were produced" % (lo, kind))
     ctx.require(a.n.get("gen_refused", 0) >= 15, "generate(): illegal parameters / domains were not refused")
@@ -734,31 +785,73 @@ def run(ctx):
     bd = a.distinct.get("gen_ecc_boundary", set())
     ctx.require(all((cn, k) in bd for cn in H.WEIER for k in ("d=1", "d=n-1", "mid")),
                 "ECC.generate boundary tapes did not give d = 1 and d = n-1 on every Weierstrass curve")
+    if not q:
+        gk = {(c_[1], c_[2], c_[3]) for c_ in a.distinct.get("classes", ()) if c_[0] == "gen" and c_[-1] == "key"}
+        ctx.require(all(("rsa", b, e) in gk for b in G.DEEP_RSA_BITS + tuple(x[0] for x in G.DEEP_RSA_LARGE) for e in (3, 65537)),
+                    "RSA.generate: not every modulus length of the thorough tier produced a key")
+        ctx.require(all(("rsa", 1024 + i, e) in gk for i in (0, 1, 7, 8, 9, 15, 16) for e in G.DEEP_RSA_E),
+                    "RSA.generate: not every public exponent of the thorough tier produced a key")
+        ctx.require(all(("elg", b, None) in gk for b in G.DEEP_ELG_BITS), "ElGamal.generate: not every modulus length produced a key")
+        ctx.require(all(("dsa", b, None) in gk for b in (1024, 2048, 3072)), "DSA.generate: not every modulus length produced a key")
+        ctx.require(a.n.get("gen_rsa_key", 0) >= 1500 and a.n.get("gen_elg_key", 0) >= 250 and a.n.get("gen_dsa_key", 0) >= 90
+                    and a.n.get("gen_ecc_key", 0) >= 400 and a.n.get("gen_refused", 0) >= 60,
+                    "generate(): the thorough tier produced fewer keys / refusals than its case list implies")
 
     # ---- RSA ----
-    B = 16 if q else 40
-    BI = 8 if q else 20
-    sh = [[("pq", p, B)] for p in range(B, -1, -1)]
+    B = 16 if q else 56
+    BI = 8 if q else 40
     ns = sorted({p * qq for p in range(B + 1) for qq in range(B + 1)})
-    sh += [[("len3", c, B)] for c in chunks(ns, 48)]
-    sh += [[("neg",)], [("special",)], [("big",)]]
-    sh += [[("import", p, BI)] for p in range(BI, -1, -1)]
+    if q:
+        sh = [[("pq", p, B)] for p in range(B, -1, -1)]
+        sh += [[("len3", c, B)] for c in chunks(ns, 48)]
+        sh += [[("neg",)], [("special",)], [("big",)]]
+        sh += [[("import", p, BI)] for p in range(BI, -1, -1)]
+        sp2 = []
+    else:
+        sp2 = special2_factors()
+        ctx.require(len(sp2) >= 150 and 6601 in sp2 and 8321 in sp2 and 5459 not in sp2 and 97 * 97 in sp2,
+                    "RSA: the list of special composite factors is not what the reference functions should give")
+        sh = [[("big", i)] for i in (8, 9)]                                  # the 2048-bit fixtures first
+        sh += [[("pq", p, B, part, 2)] for p in range(B, -1, -1) for part in range(2)]
+        sh += [[("import", p, BI, "openssh")] for p in range(BI, -1, -1)]
+        sh += [[("len3", c, B)] for c in chunks(ns, 64)]
+        sh += [[("special2", c)] for c in chunks(sp2, 16)]
+        sh += [[("big", i)] for i in range(len(BIG_FIXTURES)) if i not in (8, 9)]
+        sh += [[("neg",)], [("special",)]]
     ctx.pmap(rsa_worker, sh)
     ctx.require(a.n.get("rsa_accept", 0) >= 100, "RSA: fewer than 100 tuples accepted")
     ctx.require(a.n.get("rsa_refuse", 0) >= 1000, "RSA: fewer than 1000 tuples refused")
+    if not q:
+        bigc = {(c_[3], c_[1], c_[5]) for c_ in a.distinct.get("classes", ()) if c_[0] == "rsa-big"}
+        ctx.require(all((b, via, r) in bigc for b in (1024, 1025, 1031, 1032, 2048) for via in ("construct", "pkcs1-der", "pkcs8-der")
+                        for r in ("key", "ValueError")),
+                    "RSA: not every fixture size was both accepted and refused through construct, PKCS#1 and PKCS#8")
     # ---- DSA ----
-    PB, QB = (24, 12) if q else (48, 12)
-    PI = 12 if q else 24
-    sh = [[("p", p, QB)] for p in range(PB - 1, -1, -1)] + [[("neg",)], [("big", 1 if q else 2)]]
-    sh += [[("import", p, QB)] for p in range(PI - 1, -1, -1)]
+    PB, QB = (24, 12) if q else (60, 24)
+    PI = 12 if q else 32
+    if q:
+        sh = [[("p", p, QB)] for p in range(PB - 1, -1, -1)] + [[("neg",)], [("big", 1)]]
+    else:
+        sh = [[("big", 3, 2)], [("big", 2, 1)], [("big", 1, 0)]] + [[("p", p, QB)] for p in range(PB - 1, -1, -1)] + [[("neg",)]]
+    sh += [[("import", p, QB) if q else ("import", p, QB, "openssh")] for p in range(PI - 1, -1, -1)]
     ctx.pmap(dsa_worker, sh)
+    if not q:
+        bigc = {(c_[2], c_[1], c_[4]) for c_ in a.distinct.get("classes", ()) if c_[0] == "dsa-big"}
+        ctx.require(all((L_, via, r) in bigc for L_ in (1024, 2048, 3072) for via in ("construct", "openssl-der", "spki-der")
+                        for r in ("key", "ValueError")),
+                    "DSA: not every fixture size was both accepted and refused through construct, OpenSSL DER and SPKI")
     ctx.require(a.n.get("dsa_accept", 0) >= 100 and a.n.get("dsa_refuse", 0) >= 1000, "DSA: accept/refuse classes too small")
     # ---- ElGamal ----
-    EB = 32 if q else 64
-    ctx.pmap(elg_worker, [[("p", p)] for p in range(EB - 1, -1, -1)] + [[("misc",)]])
+    EB = 32 if q else 84
+    if q:
+        ctx.pmap(elg_worker, [[("p", p)] for p in range(EB - 1, -1, -1)] + [[("misc",)]])
+    else:
+        # a prime modulus costs p^3 calls: the large ones are cut by g into 4 shards
+        ctx.pmap(elg_worker, [[("p", p, part, 4 if p >= 40 else 1)] for p in range(EB - 1, -1, -1)
+                              for part in range(4 if p >= 40 else 1)] + [[("misc",)]])
     ctx.require(a.n.get("elg_accept", 0) >= 100 and a.n.get("elg_refuse", 0) >= 1000, "ElGamal: accept/refuse classes too small")
     # ---- EC ----
-    ctx.pmap(P.ec_worker, P.ec_shards())
+    ctx.pmap(P.ec_worker, P.ec_shards(q))
     ctx.require(a.n.get("ec_accept", 0) >= 500 and a.n.get("ec_refuse", 0) >= 5000, "EC: accept/refuse classes too small")
     ents = a.distinct.get("ec_entries", set())
     nmb = a.distinct.get("ec_near_miss_bits", set())
@@ -767,6 +860,13 @@ def run(ctx):
         have = len({b for (c_, f_, b) in nmb if c_ == cn and f_ == "montgomery"})
         ctx.require(have >= wbits - 8, "EC near misses on %s: only %d of %d bit positions of the Montgomery form produced a case" % (cn, have, wbits))
     ctx.require(len(ents) >= 55, "EC: fewer than 55 (curve, entry point / format) combinations were exercised (%d)" % len(ents))
+    if not q:
+        dout = a.distinct.get("ec_deep_outcomes", set())
+        ctx.require(all((cn, sub, r) in dout for cn in H.ALL for sub in P.DEEP_SUBS for r in ("accept", "refuse")),
+                    "EC: not every thorough-tier sub-grid (window, lengths, priv2, aliases) was both accepted and refused on every curve")
+        ctx.require(len(a.distinct.get("ec_aliases", ())) >= 31, "EC: fewer than 31 further curve names were exercised")
+        ctx.require(a.n.get("ec_deep_window", 0) >= 150000 and a.n.get("ec_deep_lengths", 0) >= 10000 and a.n.get("ec_deep_priv2", 0) >= 20000,
+                    "EC: the thorough-tier sub-grids are smaller than their definition implies")
     # ---- flips ----
     ctx.pmap(F.flip_worker, F.flip_shards(q))
     ctx.require(a.n.get("flip_accept", 0) >= 500 and a.n.get("flip_refuse", 0) >= 500, "flip: accept/refuse classes too small")
@@ -791,15 +891,43 @@ def run(ctx):
         "grids": {
             "rsa": "all (p,q) in [0,%d]^2 x e in [1,12] x d-variants (<=13) x u-variants (<=9) x n in {pq, pq+2} x tuple lengths "
                    "2,3,5,6; negative and special (Carmichael / strong-pseudoprime / prime-square) factors; import (PKCS#1, PKCS#8, "
-                   "SPKI) on [0,%d]^2; 1024/1025-bit fixtures with 25 damaged variants" % (B, BI),
+                   "SPKI) on [0,%d]^2; 1024/1025-bit fixtures with 25 damaged variants" % (B, BI) + ("" if q else
+                   "; thorough tier: public keys of the import square also as OpenSSH lines; %d further composite factors (every Carmichael number, strong pseudoprime to base 2, Lucas "
+                   "pseudoprime and prime square below %d); all %d stored fixtures %s, each with %s variants (d + k*lcm and "
+                   "d + k*phi for k = 2..8 with 3 and 5 components, neighbours of d, of the factors and of u) through construct, "
+                   "PKCS#1 and PKCS#8" % (len(sp2), SPECIAL2_LIMIT, len(BIG_FIXTURES), list(BIG_FIXTURES),
+                      "-".join(str(v) for v in sorted({min(a.distinct.get("rsa_big_nvariants", {0})), max(a.distinct.get("rsa_big_nvariants", {0}))})))),
             "dsa": "all (p,q,g) with p < %d, q < %d; (y,x) complete when the reference accepts the domain, boundary alphabet "
-                   "otherwise; 4- and 5-tuples; import (OpenSSL DER, PKCS#8, SPKI) for p < %d; 1024-bit fixture variants" % (PB, QB, PI),
+                   "otherwise; 4- and 5-tuples; import (OpenSSL DER, PKCS#8, SPKI) for p < %d; 1024-bit fixture variants" % (PB, QB, PI)
+                   + ("" if q else "; thorough tier: public keys of the import grid also as OpenSSH lines; the same 21 variants of the "
+                                     "2048/224 and 3072/256 fixtures"),
             "elgamal": "all (p,g) with p < %d; (y,x) complete for prime p, boundary alphabet otherwise" % EB,
             "ec": "nine curves; coordinate alphabets %s (all pairs) through EccPoint, ECC.construct, SEC1, SPKI, OpenSSH, "
                   "compressed forms, RFC 8032 / RFC 7748 raw encodings; scalar and seed alphabets; key files"
-                  % {cn: [len(x) for x in H.coord_alphabets(cn)] for cn in H.WEIER + H.EDW},
-            "generate": "%d cases (tapes: seeded streams, crafted boundary prefixes, candidate q = p)" % len(gc),
-            "flip": "%d encodings, %d single-bit flips" % (len(F.targets()), a.n.get("flip_cases", 0)),
+                  % {cn: [len(x) for x in H.coord_alphabets(cn)] for cn in H.WEIER + H.EDW} + ("" if q else
+                  "; thorough tier, every curve: WINDOW = %d consecutive values of x (Weierstrass), encoded y (Edwards), u (Montgomery) "
+                  "from 0, from the base point and on both sides of p (Montgomery: also around 2^255 and the octet width): both "
+                  "compressed prefixes / signs through every import format, the decompressed point, its negative and an off-curve "
+                  "neighbour through EccPoint, construct and SEC1 (%d cases); LENGTHS = every length 0..2*full+2 of point strings "
+                  "(each leading octet 2, 3, 4), of private-scalar octet strings in RFC 5915 / PKCS#8, of seeds and of raw public keys "
+                  "(%d cases); PRIV2 = private scalars 3..16, n-17..n-2, (n+-1)/2 with 7 public-point alternatives and 8 embedded "
+                  "public keys in both key-file formats, every one-bit scalar 2^k < n, every scalar n..n+16 and 2n, 3n, n+1, 2n+1; "
+                  "every one-bit seed of the Edwards and Montgomery curves with matching and mismatching public parts (%d cases); "
+                  "ALIASES = the %d other names of the library's curve table (%s) with valid, off-curve, out-of-range, neutral and "
+                  "negated points, compressed points, boundary scalars / seeds (%d cases)"
+                  % (P.WIN, a.n.get("ec_deep_window", 0), a.n.get("ec_deep_lengths", 0), a.n.get("ec_deep_priv2", 0),
+                     len(a.distinct.get("ec_aliases", ())), ", ".join(sorted(x[1] for x in a.distinct.get("ec_aliases", ()))),
+                     a.n.get("ec_deep_aliases", 0))),
+            "generate": "%d cases (tapes: seeded streams, crafted boundary prefixes, candidate q = p)" % len(gc) + ("" if q else
+                        "; thorough tier: RSA modulus lengths %d..%d x e in %s x (8 streams + 4 prefixes; even lengths: 3 + 3 injected "
+                        "candidate lists), lengths %s x e in (3, 65537); DSA stored domains 2048/224 and 3072/256 with the 12 boundary "
+                        "prefixes, 8 streams and 10 damaged domains each, fresh domains 16 x 1024, 8 x 2048, 2 x 3072; ElGamal modulus "
+                        "lengths %d..%d, 224, 256 x 8 streams; ECC %d streams per curve and every first draw within 8 of 0 and of n"
+                        % (G.DEEP_RSA_BITS[0], G.DEEP_RSA_BITS[-1], list(G.DEEP_RSA_E), [b for b, _ in G.DEEP_RSA_LARGE],
+                           G.DEEP_ELG_BITS[0], G.DEEP_ELG_BITS[-3], G.DEEP_ECC_TAPES)),
+            "flip": "%d encodings, %d single-bit flips" % (len(F.labels(q)) if not q else len(F.base_labels()), a.n.get("flip_cases", 0))
+                    + ("" if q else " (thorough tier: RSA fixtures %s besides 1024/65537, DSA 2048/224 in OpenSSL DER, and the "
+                       "curves %s besides P-256 and P-521; not flipped: %s)" % (list(F.DEEP_RSA), list(F.DEEP_CURVES), list(F.DEEP_SKIP))),
         },
         "ec_entry_points_exercised": len(ents),
         "ec_near_miss": {"cases": a.n.get("ec_near_miss_cases", 0), "bit_positions": len(nmb),
@@ -812,6 +940,9 @@ def run(ctx):
     ctx.assume("one-sided oracle: that every valid input is accepted is not demanded (counted in valid_inputs_refused)")
     ctx.assume("small scope: RSA factors <= %d, DSA p < %d q < %d, ElGamal p < %d; at cryptographic sizes only the stored "
                "fixtures with damaged components and the bit-flip closure are used" % (B, PB, QB, EB))
+    if not q:
+        ctx.assume("eddsa.import_public_key / import_private_key select the curve by the length of their argument: in the LENGTHS "
+                   "sub-grid the length that belongs to the other Edwards curve is not presented to them as a wrong length")
     ctx.assume("primality of large factors is judged by 13 fixed Miller-Rabin bases plus a strong Lucas test (no known counterexample); "
                "the library's own Miller-Rabin bases come from a deterministic stream keyed by the case")
     ctx.assume("Montgomery curves: non-canonical u (>= p, bit 255) and u on the twist are accepted by design (RFC 7748) and are "
